@@ -279,6 +279,16 @@ Record mstate := mkm { m_w : wst; m_rs : list rst; m_nrec : nat; m_cfg : cfg }.
 Definition rec_of (n : nat) (k : nat) : list Z :=
   map (fun i => if Nat.eqb i 6 then Z.of_nat k mod 3 else 1000 * Z.of_nat k + Z.of_nat i) (seq 0 n).
 
+Lemma rec_of_len n k : length (rec_of n k) = n.
+Proof. unfold rec_of. rewrite map_length, seq_length. reflexivity. Qed.
+
+(* What the daemon publishes.  The protocol never looks at the content of a record, so the machine
+   and every theorem about it are stated for an arbitrary function from the number of the write()
+   call to the record it publishes; [rec_of] (pairwise different records, used by the
+   correspondence with the real code and by the statements about publication order) is one instance. *)
+Class RecFun := { recf : nat -> nat -> list Z; recf_len : forall n k, length (recf n k) = n }.
+Definition std_rec : RecFun := {| recf := rec_of; recf_len := rec_of_len |}.
+
 Inductive obs :=
 | OAccess (who : nat) (it : titem)          (* who: 0 = writer, S j = reader j *)
 | ORet (j : nat) (ret : rret) (rec : list Z)
@@ -292,13 +302,16 @@ Fixpoint replace_nth {A} (l : list A) (i : nat) (x : A) : list A :=
   | h :: t, S k => h :: replace_nth t k x
   end.
 
+Section Run.
+Context {RF : RecFun}.
+
 Definition m_step (m : mstate) (t : token) : mstate * list obs :=
   let c := m_cfg m in
   match t with
   | TW =>
       let starting := match w_pc (m_w m) with WIdle => true | _ => false end in
       let k := if starting then S (m_nrec m) else m_nrec m in
-      match w_step c (m_w m) (rec_of (c_cells c) k) k with
+      match w_step c (m_w m) (recf (c_cells c) k) k with
       | (w', Some it) => (mkm w' (m_rs m) k c, [OAccess 0 it])
       | (w', None) => (m, [OSkip])
       end
@@ -342,7 +355,12 @@ Fixpoint m_run (m : mstate) (ts : list token) : mstate * list obs :=
   | t :: ts' => let '(m1, o1) := m_step m t in let '(m2, o2) := m_run m1 ts' in (m2, o1 ++ o2)
   end.
 
+End Run.
+
 Definition m_init (c : cfg) : mstate := mkm (w_init c) [] 0 c.
+
+(* the instance that is extracted and run against the real code *)
+Definition m_run_std := @m_run std_rec.
 
 (* final memory as a third party sees it: version, generation, cells *)
 Definition mem_of (c : cfg) (L : list event) : list Z :=
